@@ -57,6 +57,8 @@ unsafe impl Trace for Edge {
 impl Finalize for Edge {
     fn finalize(&self) {
         self.fprobe.set(self.fprobe.get() + 1);
+        // keep forwarding through ManuallyDrop -> Option -> the handle: it must end in the empty `Finalize for Cc<T>`
+        self.cc.finalize();
     }
 }
 
